@@ -25,7 +25,7 @@ def run(ctx: Ctx) -> None:
                                                          "graphiq/data_collection/correlation_module.py"]
                                                         if ctx.tier == "thorough" else []))
     ctx.floor("flow.provenance-closure", 20)
-    ctx.floor("api.numpy", 6)
+    ctx.floor("api.numpy", 4)
 
 
 KNOCKOUTS = [
